@@ -53,6 +53,16 @@ func execConc(op string, args []string) string {
 			return "bad-op"
 		}
 		return runFetchSchedule(args[0], args[1], op)
+	case "fetch2":
+		if len(args) < 2 {
+			return "bad-op"
+		}
+		return runFetch2(args[0], args[1])
+	case "transport":
+		if len(args) < 1 {
+			return "bad-op"
+		}
+		return runTransportScript(args[0])
 	case "race_dns", "race_fetch", "race_transport", "race_eventid", "race_event_readonly":
 		return runRaceOp(op, args)
 	}
@@ -413,6 +423,8 @@ func emitDNS(o *Out, op string, size int, regime, ops, sched string) {
 func genConc(o *Out, tier string, r *Rng) {
 	genConcDNS(o, tier, r)
 	genConcFetch(o, tier, r)
+	genConcFetch2(o, tier, r)
+	genConcTransport(o, tier, r)
 	genConcRace(o, tier, r)
 }
 
